@@ -1,6 +1,7 @@
 import GBProofs.Props.C11
 import GBProofs.Layout
 import GBProofs.EriIntegral
+import GBProofs.AngMom
 /-! C11: with `Layout.entry2_layout` the model's array for any listing of the shells is, entry by entry,
 the block of the two shells the indices belong to — computed in that orientation; reordering the shells
 therefore permutes indices by construction of the model, and the block symmetries justify the code's
